@@ -932,6 +932,14 @@ impl Compiler {
 
             // Pop scope
             self.builder.emit(Op::PopScope);
+
+            // Entering the catch handler re-pushed a finally-only handler (so that
+            // abrupt exits from the catch body still run the finally block). The
+            // body completed normally: drop that handler before falling into finally,
+            // otherwise a later return/break/continue would run the block again.
+            if try_stmt.finalizer.is_some() {
+                self.builder.emit(Op::PopTry);
+            }
         }
 
         // Jump to finally (if exists) or end
